@@ -21,13 +21,14 @@ def run(repo, chk):
     chk.note_undecided('independence from batch composition (depends on the network)')
     R = Rules(repo, chk)
     refcheck.run_all(R, repo, chk, 'RECUR', 'ocr_ref.py', WHAT)
+    refcheck.run_all(R, repo, chk, 'RECUR', 'nets_ref.py', {'py_init': 'sub-sampling 4, character table extended by the blank'}, only=('py_init',))
     refcheck.run_all(R, repo, chk, 'RECUR', 'merge_ref.py', {'merge_transcriptions_and_logits': 'parts of an over-long line are merged back into one result for that line'}, only=('merge_transcriptions_and_logits',))
     PL = [E + ':BaseEngineLineOCR.process_lines']
     R.run('PAIR', pair_ids, repo, Soft(chk), soft_for=PL)
     R.run('PAIR', pair_part, repo, Soft(chk), soft_for=PL)
     R.run('PAIR', pair_window, repo, Soft(chk), soft_for=PL)
     R.run('PAIR', pair_zip, repo, Soft(chk), soft_for=['pero_ocr.document_ocr.page_parser:PageOCR.process_page'])
-    chk.expect('RECUR', 6)
+    chk.expect('RECUR', 7)
     chk.expect('PAIR', 12)
 
 
